@@ -602,9 +602,7 @@ def eval_contrib_case(ctx, k, sub):
             prof = fm.profiles(model)
             sig_full = [(KINDS01.get(type(c).__name__, 0), np.array(c.sigma_xsec, float)) for c in model.contribution_list]
             ref_contrib = {n_: (np.asarray(v_[0], float), np.asarray(v_[1], float)) for n_, v_ in model.model_contrib()[1].items()}
-            ref_full = None
-            if not has_cloud:
-                ref_full = _components(model.model_full_contrib()[1])
+            ref_full = _components(model.model_full_contrib()[1])
         except Exception as e:
             ctx.malformed_outcome('multi-contrib:build:' + type(e).__name__)
             return
@@ -638,11 +636,9 @@ def eval_contrib_case(ctx, k, sub):
             req = wins[wkey]
             case = dict(base, request='history:%s(%s)' % (op, wkey), step=step, req=req)
             if op == 'full' and has_cloud:
-                # TODO (genuine defect of the unchanged tree, reported): SimpleCloudsContribution.prepare_each never sets
-                # self.sigma_xsec, so model_full_contrib with a cloud deck raises (fresh model: TypeError, after a run on a grid
-                # of another length: ValueError) - not judged until /repo is repaired
-                ctx.bucket('TODO:model_full_contrib-with-cloud-deck-not-judged(SimpleClouds.prepare_each leaves sigma_xsec unset)')
-                continue
+                # (pinned tree: SimpleCloudsContribution.prepare_each never set self.sigma_xsec, so model_full_contrib with a
+                # cloud deck raised or used a stale deck; found here, repaired in /repo — DESIGN §6 — and judged since)
+                ctx.bucket('multi-contrib:model_full_contrib-with-cloud-deck-judged')
             try:
                 if op == 'model':
                     rn, rv, rt, _ = model.model(wngrid=req, cutoff_grid=True)
